@@ -226,6 +226,9 @@ def check(run, replay=None):
     from . import libcommon
     libcommon.regen_imp(run)
     run.prove("Props/C06T", THEOREMS_T, strengthening=True)
+    # the hand model of the core theorems and what was proved of the translated code agree
+    run.prove("Props/C06B", ["c06_hand_model_overridden_is_the_translated_lookup", "c06_hand_model_emitted_is_the_translated_module"],
+              strengthening=True)
     # 3. correspondence + oracle
     if replay:
         data = json.load(open(replay))
